@@ -321,15 +321,13 @@ def spec_event_on(col, lvl):
     return lvl <= hint and bool(ev_on)
 
 
-def spec_fields(fn, args, honour_skip_all):
+def spec_fields(fn, args):
     """(name, text) pairs the span must carry — straight from the attribute's documentation."""
     a = fn["attrs"]
     out = []
     custom_names = {cf["name"][1] for cf in a["fields"] if cf["name"][0] == "param"}
     for b in fn["binds"]:
         if not b["named"] or b["i"] in a["skips"] or b["i"] in custom_names:
-            continue
-        if honour_skip_all and a["skip_all"]:
             continue
         v = args[b["i"]] if b["i"] < len(args) else 0
         if b["ty"] == "rec":
@@ -387,7 +385,6 @@ def oracle_call(rep, case, ci, fn, modpath, inst, plain, res_i, res_p):
     lvl = spec_level(a)
     on = spec_span_on(col, lvl)
     spans = [e for e in inst if e[0] == "new_span"]
-    finding = None
     if on:
         if len(spans) != 1:
             bad.append("%d spans created, expected exactly 1" % len(spans))
@@ -399,13 +396,9 @@ def oracle_call(rep, case, ci, fn, modpath, inst, plain, res_i, res_p):
                 "root" if a["parent"][0] == "none" else "explicit:h%d" % a["parent"][1])
             if (s[2], s[3], s[4], s[5]) != (want_name, lvl, want_target, want_parent):
                 bad.append("span (name, level, target, parent) = %s, configured %s" % ((s[2], s[3], s[4], s[5]), (want_name, lvl, want_target, want_parent)))
-            want_fields = spec_fields(fn, args, True)
+            want_fields = spec_fields(fn, args)
             if s[6] != want_fields:
-                if a["skip_all"] and s[6] == spec_fields(fn, args, False):
-                    finding = "F171"
-                    bad.append("skip_all given but the span records %s" % (s[6],))
-                else:
-                    bad.append("span fields %s, configured %s" % (s[6], want_fields))
+                bad.append("span fields %s, configured %s" % (s[6], want_fields))
             # custom field expressions evaluated exactly once
             fes = collections.Counter(e[1] for e in inst if e[0] == "fe")
             want_fes = collections.Counter(cf["expr"][1] for cf in a["fields"] if cf["expr"][0] != "empty")
@@ -478,8 +471,7 @@ def oracle_call(rep, case, ci, fn, modpath, inst, plain, res_i, res_p):
     if got != want:
         bad.append("ret/err events %s, expected %s" % (got, want))
     for b in bad:
-        f = finding if (finding and b.startswith("skip_all given")) else None
-        rep.violation("#[instrument] twin %s (%s): %s" % (C.fn_name(fn, "i"), fn["kind"], b), dict(info, what=b), finding=f)
+        rep.violation("#[instrument] twin %s (%s): %s" % (C.fn_name(fn, "i"), fn["kind"], b), dict(info, what=b))
     return not bad
 
 
@@ -683,7 +675,8 @@ def run(ctx):
         "checked separately (each custom field expression exactly once when enabled, never when disabled)",
         "the order inside a run of consecutive scope-exit drops is not compared (rustc's closure-capture / field order); counts and positions of the runs are",
         "futures are polled to completion (no cancellation); tracing's `log` feature is off",
-        "F171: `skip_all` is not implemented by this tree's attr.rs (theorems assume a_skip_all = false; C17_F171_refuted is the witness)"]
+        "attribute arguments are those this tree's attr.rs parses (name, level, target, parent, follows_from, skip, fields, ret, err); "
+        "`skip_all` does not exist on this release line, so `skipped arguments absent` is about `skip(..)`"]
     write_corpora()
     # ---- leg B1: template translator
     try:
